@@ -105,6 +105,8 @@ type sessRunner struct {
 	shadow  int
 	prop    string
 	rc      *RunCtx
+	tc      *treeCache
+	nResolve int
 }
 
 func (sr *sessRunner) violation(oracle, class, detail string) {
@@ -216,7 +218,14 @@ func (sr *sessRunner) resolve(text string) (v interface{}, err error, pan interf
 			pan = p
 		}
 	}()
-	src, e := formula.ParseSourceCode([]byte(text))
+	sr.nResolve++
+	var src *formula.SourceCode
+	var e error
+	if sr.tc != nil {
+		src, e = sr.tc.parse(text, sr.nResolve%2 == 0)
+	} else {
+		src, e = formula.ParseSourceCode([]byte(text))
+	}
 	if e != nil || src == nil {
 		return nil, nil, nil, errors.New("parse: " + errText(e))
 	}
@@ -389,8 +398,24 @@ func (g *mgen) build(want int, d int) (*MNode, MV) {
 		}
 		return &MNode{Op: nCall, Name: "rec", Kids: []*MNode{a}}, v
 	case choice == 4 && want == wNum:
+		if g.s.Intn(4) == 0 { // unary minus of a small integer
+			a, av := g.build(wNum, d+1)
+			if av.N > 1<<40 || av.N < -(1<<40) {
+				return a, av
+			}
+			return &MNode{Op: nNeg, Kids: []*MNode{a}}, mNum(-av.N)
+		}
 		a, av := g.build(wNum, d+1)
 		b, bv := g.build(wNum, d+1)
+		if av.N > 1<<20 || av.N < -(1<<20) || bv.N > 1<<20 || bv.N < -(1<<20) {
+			return &MNode{Op: nAdd, Kids: []*MNode{a, b}}, mNum(av.N + bv.N)
+		}
+		switch g.s.Intn(4) {
+		case 0:
+			return &MNode{Op: nSub, Kids: []*MNode{a, b}}, mNum(av.N - bv.N)
+		case 1:
+			return &MNode{Op: nMul, Kids: []*MNode{a, b}}, mNum(av.N * bv.N)
+		}
 		return &MNode{Op: nAdd, Kids: []*MNode{a, b}}, mNum(av.N + bv.N)
 	case choice == 4 && want == wBool:
 		k := 1 + g.s.Intn(3)
@@ -453,7 +478,7 @@ func (g *mgen) build(want int, d int) (*MNode, MV) {
 	case choice == 11 && g.bad && g.s.Bool(1, 3):
 		g.bad = false // at most one per formula
 		g.dead = true
-		targets := []string{"x", "o.a", "$a.b", "($a)", "1", "[$a]", "'s'", "true", "this", "null", "nosuch", "$a.$b"}
+		targets := []string{"x", "o.a", "$a.b", "($a)", "1", "[$a]", "'s'", "true", "this", "null", "nosuch", "$a.$b", "x$", "y$a", "u$1", "_$a", "flag$"}
 		return &MNode{Op: nBadAssign, Raw: targets[g.s.Intn(len(targets))], Kids: []*MNode{lit(mNum(int64(g.s.Intn(9))))}}, mNull()
 	case choice == 11 && g.has("fail") && g.s.Bool(1, 4):
 		g.dead = true
@@ -721,7 +746,7 @@ func (sr *sessRunner) opEval(s *Stream, maxNodes, maxDepth int, faults bool, enu
 	if calls > 0 && faults && enumerate && calls <= 8 {
 		// enumerate every single-fault position on clones of the current state
 		for k := 1; k <= calls; k++ {
-			sh := &sessRunner{id: sr.id, r: formula.NewRunner(), m: sr.m.clone(), st: sr.st, fl: sr.fl, flavour: sr.flavour, prop: sr.prop, rc: sr.rc, hist: append(append([]string{}, sr.hist...), "CLONE")}
+			sh := &sessRunner{id: sr.id, r: formula.NewRunner(), m: sr.m.clone(), st: sr.st, fl: sr.fl, flavour: sr.flavour, prop: sr.prop, rc: sr.rc, tc: sr.tc, hist: append(append([]string{}, sr.hist...), "CLONE")}
 			sh.ctx = context.WithValue(context.Background(), "formulaRunner", sh.r)
 			for key, v := range sh.m.aux {
 				key, v := key, v
@@ -780,8 +805,9 @@ func runSessions(rc *RunCtx) {
 		nRunners = 1 + pl.Intn(3)
 	}
 	var srs []*sessRunner
+	tc := &treeCache{} // one per run, shared by its runners: the probe formulas ($a, x, ...) recur constantly
 	for i := 0; i < nRunners; i++ {
-		sr := &sessRunner{id: i, r: formula.NewRunner(), m: newRunnerModel(), prop: rc.prop, rc: rc,
+		sr := &sessRunner{id: i, r: formula.NewRunner(), m: newRunnerModel(), prop: rc.prop, rc: rc, tc: tc,
 			st: rc.tape.Stream("runner-" + strconv.Itoa(i)), fl: rc.tape.Stream("faults-" + strconv.Itoa(i))}
 		sr.ctx = context.WithValue(context.Background(), "formulaRunner", sr.r)
 		srs = append(srs, sr)
@@ -862,6 +888,7 @@ func runSessions(rc *RunCtx) {
 	rc.sig = shape.h
 	rc.nontriv = totalEvals > 0 && (relaxed > 0 || shadow > 0 || nRunners > 1 || totalEvals > 1)
 	rc.probes["evaluations"] += int64(totalEvals)
+	rc.probes["evaluations_of_an_already_evaluated_tree"] += int64(tc.hits)
 	rc.probes["shadow_fault_evaluations"] += int64(shadow)
 	rc.sample = sample
 }
